@@ -60,6 +60,52 @@ def corpus_mapping(name):
     return Mapping2D3D(s3d, bps, sts, False)
 
 
+_HEALTHY_ROWS = {}
+
+
+def parse_extended(text, nstrands):
+    """Extended dot-bracket text -> [[LW label, row over the whole molecule], ...] (strand blocks concatenated)."""
+    lines = text.split("\n")
+    block = len(lines) // max(1, nstrands)
+    rows = {}
+    for b in range(nstrands):
+        chunk = lines[b * block:(b + 1) * block]
+        for k, line in enumerate(chunk[2:]):
+            lw, dbn = line.split(" ", 1)
+            rows[k] = (lw, rows.get(k, (lw, ""))[1] + dbn)
+    return [[lw, dbn] for _, (lw, dbn) in sorted(rows.items())]
+
+
+def healthy_rows(env, name):
+    """Which pairs every row of a corpus structure's extended dot-bracket stands for: decoded from the rows the
+    code under test writes in a healthy world (stub solver, no fault).  The pairs of a row do not depend on the
+    solver - only the bracket levels do - so under any fault every row must still decode to these pairs.  Computed
+    once per process, outside the event log, with the simulated world restored afterwards."""
+    if name in _HEALTHY_ROWS:
+        return _HEALTHY_ROWS[name]
+    import pulp
+
+    saved = (env.backend, env.highs_on_path, env.cbc_executable, env.faults, env.fault_cursor, env.secondary_fault,
+             env.highs_lookups_left, env.uuid_counter, pulp.LpSolverDefault, len(env.solves))
+    with events.suspended():
+        try:
+            solver = env.configure("sim-api", False, True, [{"kind": "ok", "tie": 0}])
+            env.set_default(solver)
+            m = corpus_mapping(name)
+            rows = parse_extended(m.extended_dot_bracket, len(m.strands_sequences))
+            out = [[lw, sorted(oracles.decode(row) or [])] for lw, row in rows]
+        except (zero_one.NodeCap, zero_one.Unsupported):
+            out = None
+        except Exception:  # noqa: BLE001 - no reference, no judgement
+            out = None
+    (env.backend, env.highs_on_path, env.cbc_executable, env.faults, env.fault_cursor, env.secondary_fault,
+     env.highs_lookups_left, env.uuid_counter, default, nsolves) = saved
+    pulp.LpSolverDefault = default
+    del env.solves[nsolves:]
+    _HEALTHY_ROWS[name] = out
+    return out
+
+
 def db_tuple(db):
     return [getattr(db, "sequence", None), getattr(db, "structure", None)]
 
@@ -88,6 +134,8 @@ def execute_step(env, step):
         fault["lookups"] = 1 if via == "property" else 0
     n_before = len(env.solves)
     solver = env.configure(backend, highs_on_path, cbc_exec, [fault])
+    if step.get("default_fault"):
+        env.secondary_fault = dict(step["default_fault"])
     if via == "property":
         if backend == "highs-wrapper" and highs_on_path:
             # rnapolis builds its own HiGHS_CMD(); the default must then be irrelevant
@@ -97,10 +145,21 @@ def execute_step(env, step):
     else:
         env.set_default(None if step.get("default", "none") == "none" else env.decoy_solver())
     obs = {"raised": None, "db": None, "consumer": None, "discard": None}
+    healthy = None
+    if op in ("mapping_extended", "mapping_extract"):
+        healthy = healthy_rows(env, step["corpus"])
     if op.startswith("mapping_"):
         mapping = corpus_mapping(step["corpus"])
         bp = mapping.bpseq
         obs["triples"] = [[e.index_, e.sequence, e.pair] for e in bp.entries]
+    elif step.get("object"):
+        # the same live object across several steps of the run (a history on one object)
+        if not hasattr(env, "objects"):
+            env.objects = {}
+        key = (step["object"], rng.digest(step["triples"])[:12])
+        if key not in env.objects:
+            env.objects[key] = make_bpseq(step["triples"])
+        bp = env.objects[key]
     else:
         bp = make_bpseq(step["triples"])
     events.log("op.invoke", [op, via, backend, fault.get("kind")])
@@ -187,6 +246,8 @@ def execute_step(env, step):
         raise
     except Exception as e:  # noqa: BLE001 - the property says "never raises"
         obs["raised"] = describe_exc(e)
+    if healthy is not None and obs.get("consumer") is not None:
+        obs["consumer"]["healthy_row_pairs"] = healthy
     obs["solves"] = [dict(s) for s in env.solves[n_before:]]
     events.log("op.return", rng.digest([obs["raised"], obs["db"], obs["consumer"]])[:16])
     return obs
@@ -258,6 +319,17 @@ def judge_c13(run, observations):
                     out.append(_violation(k, "elements-consistent-with-notation",
                                           [lo, hi, seq[lo - 1 : hi], structure[lo - 1 : hi]], [first, last, sseq, sstr]))
                     break
+        if cons and "extended_rows" in cons and cons.get("healthy_row_pairs"):
+            want_rows = cons["healthy_row_pairs"]
+            got_rows = cons["extended_rows"]
+            if [lw for lw, _ in want_rows] != [lw for lw, _ in got_rows]:
+                out.append(_violation(k, "extended-rows-are-the-same-classes", [lw for lw, _ in want_rows], [lw for lw, _ in got_rows]))
+            else:
+                for (lw, want_pairs), (_, row) in zip(want_rows, got_rows):
+                    got = oracles.decode(row) if len(row) == n else None
+                    if got is not None and sorted(map(list, got)) != [list(p) for p in want_pairs]:
+                        out.append(_violation(k, "extended-row-encodes-the-pairs-of-its-class", [lw, want_pairs], [lw, row]))
+                        break
         if cons and "extended_rows" in cons:
             for lw, row in cons["extended_rows"]:
                 got = oracles.decode(row) if len(row) == n else None
